@@ -604,6 +604,25 @@ func richTour(u *universe, w *hWorld) []func() *worldOp {
 			tweak(arrival(u.U[2], u.U[1], "ESDTFreeze", u.Fung[0]), setCT),
 		)
 	}
+	// (r) a value saved again unchanged (free of the per-byte charge), then changed; calls that carry a non-zero call value where the function
+	//     forbids it, made by the caller who would otherwise be entitled
+	withValue := func(cs *callSpec) { cs.Value = big.NewInt(1) }
+	l = append(l,
+		tx(u.U[0], u.U[0], "SaveKeyValue", []byte("k9"), []byte("v9")),
+		tx(u.U[0], u.U[0], "SaveKeyValue", []byte("k9"), []byte("v9"), []byte("k8"), []byte("v8"), []byte("k7"), []byte("v7")),
+		tx(u.U[0], u.U[0], "SaveKeyValue", []byte("k9"), []byte("v9x")),
+		tweak(tx(u.U[3], u.K[0], "ChangeOwnerAddress", u.U[0]), withValue),
+		tweak(tx(u.U[3], u.K[0], "ClaimDeveloperRewards"), withValue),
+		tweak(tx(u.DNS, userAddr(0x36), "SetUserName", []byte("erin.elrond")), withValue),
+		tweak(tx(u.U[0], u.U[1], "ESDTTransfer", u.Fung[0], be(1)), withValue),
+		tweak(tx(u.U[0], u.U[0], "ESDTNFTTransfer", u.NFTs[1], be(1), be(1), u.U[1]), withValue),
+		tweak(tx(u.U[0], u.U[0], "MultiESDTNFTTransfer", tkMulti(u.U[1], u.Fung[0], nil, be(1))...), withValue),
+		tweak(tx(u.U[0], u.U[0], "ESDTLocalMint", u.Fung[0], be(1)), withValue),
+		tweak(tx(u.U[0], u.U[0], "ESDTNFTCreate", u.NFTs[0], be(1), []byte("n"), be(1), []byte("h"), []byte("a"), []byte("u")), withValue),
+		tweak(sysAs(u.SC, u.U[0], u.U[0], "ESDTFreeze", u.Fung[1]), withValue),
+		tweak(sysAs(u.SC, u.U[0], u.SYS, "ESDTPause", u.Fung[1]), withValue),
+		tx(u.U[3], u.K[0], "ChangeOwnerAddress", u.U[0]), // the same by the owner without a value: accepted (message towards shard 0)
+	)
 	// a pause addressed to the non-canonical system-account address, a transfer of the token on that shard, the unpause
 	l = append(l,
 		sysAs(u.SC, u.U[0], u.SysVar, "ESDTPause", u.Fung[2]),
